@@ -81,7 +81,7 @@ package types
 
 // a decoded block never repeats a transaction, and its transactions are the ones the header's root commits to
 //@ func (*Block).Deserialization
-//@   property C02
+//@   property C02, C03
 //@   mode abstract
 //@   nopanic on
 //@   requires self != nil && source != nil && source.off <= uint64(len(source.s)) && len(self.Transactions) == 0
